@@ -229,7 +229,14 @@ def oracle(res, ne, np_, nc, adds, state_check=True, qiskit_check=True, key_pref
         _build = cu.build
     c = _build(ne, np_, nc, adds)
     seq, idx = cu.seq_order(c)
-    if not cu.is_linear_extension(adds, idx):
+    # cu.is_linear_extension reads the add order off the node ids; a circuit reached through mid-wire insertions ("insert-mid": node creation
+    # order != circuit order) has no such correspondence, there the same specification is checked on the DAG itself: every edge goes forward
+    if history == "insert-mid":
+        pos = {id(op): i for i, op in enumerate(c.sequence())}
+        lin_ok = all(pos[id(c.dag.nodes[u]["op"])] < pos[id(c.dag.nodes[v]["op"])] for u, v in c.dag.edges())
+    else:
+        lin_ok = cu.is_linear_extension(adds, idx)
+    if not lin_ok:
         # trusted-base item "sequence() is a linear extension of the per-register order": it used to be a note only (exit 0)
         res.notes.append("networkx.topological_sort returned an order that is not a linear extension (library specification violated)")
         res.exact_break("sequence:not-a-linear-extension", input=inp, impl=".".join(map(str, idx)), model="sequence() lists the operations in an order compatible with every register's order")
